@@ -74,10 +74,13 @@ Proof.
   pose proof (P_Claim _ _ _ HP) as HC. split; [exact HC|]. split; [apply HP|]. now apply Claim_P_boot.
 Qed.
 
+Lemma good_cash : good_region (true, [ICash]).
+Proof. split; [reflexivity|]. split; [discriminate|]. intros g m d l f HP. cbn. crush. Qed.
+
 Lemma good_compile o : op_ok o -> Forall good_region (compile true o).
 Proof.
-  destruct o as [a|a|th|p|]; cbn; intros Hok; repeat apply Forall_cons; try apply Forall_nil;
-    auto using good_putR, good_putT, good_loadbal, good_issue, good_recv, good_refresh.
+  destruct o as [a|a|th|p| |]; cbn; intros Hok; repeat apply Forall_cons; try apply Forall_nil;
+    auto using good_putR, good_putT, good_loadbal, good_issue, good_recv, good_refresh, good_cash.
 Qed.
 
 Lemma good_flat_map ops : Forall op_ok ops -> Forall good_region (flat_map (compile true) ops).
@@ -240,3 +243,19 @@ Lemma early_read_refresh_refuted :
   let s := exec refresh_s0 refresh_witness_sched in
   doneR (gh s) = 15 /\ rT (restore (disk s)) = 5.
 Proof. vm_compute. split; reflexivity. Qed.
+
+(** * a cash-out receipt that stores the cashed amount under the served-total key loses the
+      traffic served beyond the last received cheque at the next restart *)
+Definition cash_witness_progs : list (list op) := [[PutT 12; Recv 5; Cash]].
+Definition mk_thread_cashbad (ops : list op) : thread :=
+  {| cur := []; inlock := false;
+     todo := flat_map (fun o => match o with Cash => [(true, [ICashBad])] | _ => compile true o end) ops;
+     loc := 0; flag := false |}.
+Definition cash_s0 : state :=
+  {| mem := restore d_zero; disk := d_zero; lock := None; thr := map mk_thread_cashbad cash_witness_progs;
+     gh := ghost0 (restore d_zero); committed := restore d_zero |}.
+Lemma cash_overwrites_total_refuted :
+  let s := exec cash_s0 (repeat 0%nat 12) in
+  doneT (gh s) = 12 /\ tT (restore (disk s)) = 5 /\
+  tT (restore (disk (exec (boot true d_zero (ghost0 (restore d_zero)) cash_witness_progs) (repeat 0%nat 12)))) = 12.
+Proof. vm_compute. repeat split; reflexivity. Qed.
